@@ -18,7 +18,10 @@ import traceback
 
 HERE = os.path.dirname(os.path.abspath(__file__))
 sys.path.insert(0, HERE)
-os.environ.setdefault("PYTHONHASHSEED", "0")
+if os.environ.get("PYTHONHASHSEED") != "0":
+    # string hashing must be identical in every process of a run (and between runs): restart with a fixed seed
+    os.environ["PYTHONHASHSEED"] = "0"
+    os.execv(sys.executable, [sys.executable] + sys.argv)
 
 from vlib import build, evidence, known  # noqa: E402
 from vlib.acc import Merged  # noqa: E402
